@@ -222,6 +222,7 @@ def _frac_grid(rng, big=False):
 def _dtype_leaf(rng, grid, dtype, layout=None):
     """grid landscape from a `values` array of the given dtype (integer samples for the integer dtypes) and memory layout"""
     start, stop, n = grid
+    layout = layout or rng.choice(LAYOUTS)
     k = rng.randint(2, 3) if layout == "F" else rng.randint(1, 3)
     rows = []
     for _ in range(k):
@@ -233,7 +234,7 @@ def _dtype_leaf(rng, grid, dtype, layout=None):
             row[0] = row[-1] = 0 if dtype in INT_DTYPES else 0.0
         rows.append(row)
     r = {"t": "vals", "start": start, "stop": stop, "n": n, "values": rows, "dtype": dtype,
-         "layout": layout or rng.choice(LAYOUTS)}
+         "layout": layout}
     if rng.random() < 0.5:
         r["grid_int"] = True            # integral grid ends are passed as Python ints (start=0, stop=3)
     return r
@@ -246,7 +247,8 @@ def _scale_recipe(r, s):
     return r
 
 
-def _case(rng, cls):
+def _case(rng, cls, j=None):
+    """j: running index within the class (generate() passes it so that dtypes x layouts x kinds are all met in every run)"""
     p = rng.choice(INT_PS)
     c = {"cls": cls, "p": p, "c": _coef(rng), "other": None}
     if cls in ("pos", "neg", "cross", "flat", "touch", "mixed"):
@@ -308,16 +310,21 @@ def _case(rng, cls):
         big = cls == "vals_dtype_big"
         grid = _frac_grid(rng, big)
         dtype = rng.choice(INT_DTYPES + ["int64", "float32", "float64"])
+        lay = None
+        k = rng.choice(["leaf", "leaf", "diff", "lin"])
+        if j is not None:       # 6 dtypes x 5 layouts x 6 kind slots, met once each every 30 cases
+            dtype = (INT_DTYPES + ["float32", "float64", "int64"])[j % 6]
+            lay = ["F", "strided", "negstride", "readonly", "C"][j % 5]
+            k = ["leaf", "diff", "leaf", "lin", "leaf", "leaf"][(j // 5) % 6]
         if big:
             c["p"] = rng.choice([1, 2, 3])
-        k = rng.choice(["leaf", "leaf", "diff", "lin"])
         dt2 = lambda: dtype if dtype == "float32" else rng.choice([dtype, dtype, "float64", "int32"])   # operands of mixed dtypes
         if k == "leaf":
-            c["recipe"] = _dtype_leaf(rng, grid, dtype)
+            c["recipe"] = _dtype_leaf(rng, grid, dtype, lay)
         elif k == "diff":
-            c["recipe"] = {"t": "lin", "terms": [[1.0, _dtype_leaf(rng, grid, dtype)], [-1.0, _dtype_leaf(rng, grid, dt2())]]}
+            c["recipe"] = {"t": "lin", "terms": [[1.0, _dtype_leaf(rng, grid, dtype, lay)], [-1.0, _dtype_leaf(rng, grid, dt2(), lay)]]}
         else:
-            c["recipe"] = {"t": "lin", "terms": [[rng.choice([1.0, -1.0, 2, -3, 0.5, 0.3]), _dtype_leaf(rng, grid, dt2())]
+            c["recipe"] = {"t": "lin", "terms": [[rng.choice([1.0, -1.0, 2, -3, 0.5, 0.3]), _dtype_leaf(rng, grid, dt2(), lay)]
                                                  for _ in range(rng.randint(1, 3))]}
         if dtype == "float32":
             # c * P is formed in single precision: only factors that scale exactly; no second landscape
@@ -390,12 +397,16 @@ DTYPE_CLASSES = ["vals_dtype"] * 5 + ["dgm_int", "adgm_int", "cp_container"] * 2
 def generate(rng, tier):
     n = 380 if tier == "quick" else 9000
     n_real = 16 if tier == "quick" else 320
-    n_dt = 77 if tier == "quick" else 1800
-    n_big = 3 if tier == "quick" else 60
+    n_dt = 66 if tier == "quick" else 1800
+    n_big = 2 if tier == "quick" else 60
     cases = [_case(rng, CLASSES[i % len(CLASSES)]) for i in range(n)]
     cases += [_case(rng, "real_p") for _ in range(n_real)]
-    cases += [_case(rng, DTYPE_CLASSES[i % len(DTYPE_CLASSES)]) for i in range(n_dt)]
-    cases += [_case(rng, "vals_dtype_big") for _ in range(n_big)]
+    seen = {}
+    for i in range(n_dt):
+        cls = DTYPE_CLASSES[i % len(DTYPE_CLASSES)]
+        cases.append(_case(rng, cls, seen.setdefault(cls, 0)))
+        seen[cls] += 1
+    cases += [_case(rng, "vals_dtype_big", 7 * i) for i in range(n_big)]
     return cases
 
 
